@@ -136,6 +136,9 @@ func (i *IPv6) UnmarshalBinary(data []byte) error {
 	copy(i.NWDst, data[n:n+16])
 	n += 16
 
+	// a used value must not keep the extension headers of an earlier packet
+	i.HbhHeader, i.RoutingHeader, i.FragmentHeader = nil, nil, nil
+
 	checkExtHeader := true
 	nxtHeader := i.NextHeader
 checkXHeader:
